@@ -68,16 +68,39 @@ class Module:
         walk(self.tree, '')
 
     # -- anchors ---------------------------------------------------------------------
+    def _imported(self, name):
+        """Definition of a top-level name this module imports from another pedal module (a function or class a
+        refactoring moved away and re-imported under its old name): the FunctionDef/ClassDef node, or None."""
+        from . import fdeval as _fdeval
+        sym = _fdeval.CURRENT_SYM[0]
+        if sym is None or sym.repo.modules.get(self.name) is not self:
+            return None
+        r = sym.resolve_name(self, name)
+        if isinstance(r, tuple) and r and r[0] == 'func':
+            return r[2]
+        return getattr(r, 'node', None) if r is not None and not isinstance(r, tuple) else None
+
     def func(self, qualname):
         try:
             return self.functions[qualname]
         except KeyError:
+            head, _, rest = qualname.partition('.')
+            node = self._imported(head)
+            if isinstance(node, (ast.FunctionDef, ast.AsyncFunctionDef)) and not rest:
+                return node
+            if isinstance(node, ast.ClassDef) and rest:
+                found = node._module.functions.get(node._qualname + '.' + rest)
+                if found is not None:
+                    return found
             raise AnalysisError("anchor vanished: function %s in %s" % (qualname, self.relpath))
 
     def cls(self, qualname):
         try:
             return self.classes[qualname]
         except KeyError:
+            node = self._imported(qualname) if '.' not in qualname else None
+            if isinstance(node, ast.ClassDef):
+                return node
             raise AnalysisError("anchor vanished: class %s in %s" % (qualname, self.relpath))
 
     def has_func(self, qualname):
